@@ -5,10 +5,16 @@
    (MergeP.msg_unknown_loop_k)  a run of rejected fields inside any input is appended in input order
    msg_unknown_reemitted        Marshal writes the unknown bytes after the known fields
    msg_discard_unknown          DiscardUnknown: no message of the tree keeps unknown bytes
-   msg_schema_evolution_arbitrary_bytes_refuted, msg_schema_evolution_example *)
-From Coq Require Import List Arith NArith ZArith Lia Bool.
-From PB Require Import Base.PBytes Wire.WireModel Wire.ScanP Msg.MsgSchema Msg.MsgValue Msg.MsgEnc Msg.MsgDec Msg.MsgValid
-  Msg.MsgAssocP Msg.MsgSizeP Msg.MsgRoundP Msg.MsgExample Msg.UnkModel.
+   msg_schema_evolution_arbitrary_bytes_refuted, msg_schema_evolution_example
+   msg_schema_evolution_kept_scalar   schema evolution: any deleted fields, kept populated fields of scalar kind
+   msg_schema_evolution_top           schema evolution: any fields of the (non-recursive) root type deleted,
+                                      kept and deleted fields of every kind (msg_*_agree: encoder, sizes and
+                                      typing of the nested types do not change) *)
+From Coq Require Import List Arith NArith ZArith Lia Bool Permutation.
+From Coq Require Import ZifyBool ZifyNat ZifyN.
+From PB Require Import Base.PBytes Wire.WireModel Wire.VarintP Wire.ScanP Msg.MsgSchema Msg.MsgValue Msg.MsgUtf8 Msg.MsgEnc Msg.MsgDec Msg.MsgValid
+  Msg.MsgWireP Msg.MsgScalarP Msg.MsgAssocP Msg.MsgSizeP Msg.MsgRoundP Msg.MsgExample Msg.UnkModel Msg.MergeModel Msg.MergeP.
+Ltac Zify.zify_post_hook ::= Z.div_mod_to_equations.
 Import ListNotations.
 Open Scope N_scope.
 
@@ -190,3 +196,933 @@ Example msg_schema_evolution_example :
   (exists v', msg_decode true (msg_restrict ex_keep ex_schema) 3 0 (msg_encode ex_schema 0 ex_msg) = DOk v' /\
               msg_has_unknown v' = true /\ v' <> ex_msg).
 Proof. split; [vm_compute; reflexivity|]. eexists. split; [vm_compute; reflexivity|]. split; [vm_compute; reflexivity|discriminate]. Qed.
+
+(* ================= schema evolution: arbitrary deleted fields, kept fields of scalar kind ================= *)
+(* ---------- the restricted schema ---------- *)
+Lemma msg_restrict_from_nth keep : forall S k tid,
+  nth_error (msg_restrict_from keep k S) tid =
+  match nth_error S tid with
+  | Some md => Some (filter (fun fd => keep (k + tid)%nat (f_num fd)) md)
+  | None => None
+  end.
+Proof.
+  induction S as [|md S IH]; intros k tid; cbn [msg_restrict_from]; [destruct tid; reflexivity|].
+  destruct tid as [|tid]; cbn [nth_error].
+  - rewrite Nat.add_0_r. reflexivity.
+  - rewrite IH. replace (Datatypes.S k + tid)%nat with (k + Datatypes.S tid)%nat by lia. reflexivity.
+Qed.
+
+Lemma msg_find_filter (f : N -> bool) : forall md num,
+  msg_find_field (filter (fun fd => f (f_num fd)) md) num =
+  if f num then msg_find_field md num else None.
+Proof.
+  induction md as [|fd md IH]; intros num; cbn [filter msg_find_field]; [destruct (f num); reflexivity|].
+  destruct (N.eqb_spec (f_num fd) num) as [E|E].
+  - rewrite E. destruct (f num) eqn:Hf.
+    + cbn [msg_find_field]. rewrite <- E at 1. rewrite N.eqb_refl. reflexivity.
+    + rewrite IH, Hf. reflexivity.
+  - destruct (f (f_num fd)); [cbn [msg_find_field]; destruct (N.eqb_spec (f_num fd) num); [congruence|]|]; apply IH.
+Qed.
+
+(* ---------- scalar-kinded fields do not look at sub-message encoders / typing ---------- *)
+Lemma msg_typed_field_scalar slow eb tv tv2 eb' tv' tv2' has2 fd vs sk :
+  f_kind fd = KS sk ->
+  msg_typed_field slow eb tv tv2 has2 fd vs = msg_typed_field slow eb' tv' tv2' has2 fd vs.
+Proof. intros Hk. unfold msg_typed_field, msg_typed_elem, msg_typed_entry. rewrite Hk. reflexivity. Qed.
+Lemma msg_szok_field_scalar sb ok sb' ok' fd vs sk :
+  f_kind fd = KS sk -> msg_szok_field sb ok fd vs = msg_szok_field sb' ok' fd vs.
+Proof. intros Hk. unfold msg_szok_field, msg_szok_elem, msg_szok_entry, msg_size_elem. rewrite Hk. reflexivity. Qed.
+Lemma msg_enc_field_scalar eb eb' fd vs sk :
+  f_kind fd = KS sk -> msg_enc_field eb fd vs = msg_enc_field eb' fd vs.
+Proof. intros Hk. unfold msg_enc_field, msg_enc_entry, msg_enc_elem. rewrite Hk. reflexivity. Qed.
+
+Lemma msg_perm_filter_split {A} (f : A -> bool) (l : list A) :
+  Permutation (filter f l ++ filter (fun x => negb (f x)) l) l.
+Proof.
+  induction l as [|a l IH]; [reflexivity|]. cbn [filter]. destruct (f a); cbn [negb app].
+  - constructor. exact IH.
+  - etransitivity; [apply Permutation_sym, Permutation_middle|]. constructor. exact IH.
+Qed.
+
+Lemma msg_firstn_len' {A} (a b : list A) n : n = length a -> firstn n (a ++ b) = a.
+Proof. intros ->. induction a as [|x a IH]; [reflexivity|]. cbn [length app firstn]. now rewrite IH. Qed.
+
+Section EvoDec.
+  Variable S' : schema.
+  Notation dm := (msg_decode_msg true S').
+  Variables (d tid : nat) (md' : mdesc) (grp : N).
+  Hypothesis Hmd' : nth_error S' tid = Some md'.
+  Notation has2 := (match d with O => false | _ => true end).
+
+  (* one well-formed field that md' rejects, on the reflection path: kept verbatim *)
+  Lemma msg_dm_unknown_field num typ val tail accf U g w :
+    1 <= num -> num <= msg_max_num -> typ < 8 -> typ <> 4 ->
+    msg_rejects md' has2 num typ = true ->
+    parse_val default_dep num typ (val ++ tail) = Ok (w, tail) ->
+    (length (enc_tag num typ ++ val ++ tail) < length g)%nat ->
+    exists g2, (length tail < length g2)%nat /\
+      dm (Datatypes.S d) tid grp g (enc_tag num typ ++ val ++ tail) (accf, U) =
+      dm (Datatypes.S d) tid grp g2 tail (accf, U ++ enc_tag num typ ++ val).
+  Proof.
+    intros Hlo Hhi Ht Ht4 Hrej Hpv Hg. destruct g as [|x g]; [cbn in Hg; lia|].
+    exists g. split.
+    - destruct (msgw_enc_tag_nonempty num typ) as (b & r & E). rewrite E in Hg.
+      cbn [length app] in Hg. rewrite !app_length in Hg. lia.
+    - rewrite (msg_dm_unfold true S' d tid grp md' x g _ (accf, U) Hmd').
+      destruct (msgw_enc_tag_nonempty num typ) as (b & r & E).
+      assert (Hne : exists b0 r0, enc_tag num typ ++ val ++ tail = b0 :: r0)
+        by (rewrite E; eexists; eexists; reflexivity).
+      destruct Hne as (b0 & r0 & E0). rewrite E0. cbv iota. rewrite <- E0.
+      rewrite msg_max_num_eq in Hhi.
+      rewrite msgw_dec_tag_enc by lia.
+      replace (msg_max_num <? num) with false by (rewrite msg_max_num_eq; lia).
+      rewrite andb_false_r. cbv zeta.
+      rewrite msg_rejects_step; [|exact Hrej].
+      unfold msg_unknown. rewrite Hpv. cbn [fst snd]. f_equal. f_equal. f_equal. f_equal.
+      + apply msg_firstn_len'. rewrite !app_length. lia.
+      + apply msg_firstn_len'. rewrite !app_length. lia.
+  Qed.
+
+  Variable S : schema.   (* the schema of the encoder *)
+  Notation eb := (msg_enc_body S).
+
+  (* one element (scalar, length-delimited message, group) of a field md' does not have *)
+  Lemma msg_dm_deleted_elem tv fd v accf U tail g :
+    1 <= f_num fd -> f_num fd <= msg_max_num -> msg_find_field md' (f_num fd) = None ->
+    msg_typed_elem true eb tv fd v = true ->
+    msg_szok_elem (msg_size_body S) (msg_sizes_ok S) (f_kind fd) v = true ->
+    (length (msg_enc_elem eb (f_num fd) (f_kind fd) v ++ tail) < length g)%nat ->
+    exists g2, (length tail < length g2)%nat /\
+      dm (Datatypes.S d) tid grp g (msg_enc_elem eb (f_num fd) (f_kind fd) v ++ tail) (accf, U) =
+      dm (Datatypes.S d) tid grp g2 tail (accf, U ++ msg_enc_elem eb (f_num fd) (f_kind fd) v).
+  Proof.
+    intros Hlo Hhi Hnone Hty Hsz Hg.
+    assert (Hrej : forall typ, msg_rejects md' has2 (f_num fd) typ = true)
+      by (intros typ; unfold msg_rejects; rewrite Hnone; reflexivity).
+    unfold msg_typed_elem in Hty. unfold msg_enc_elem, msg_szok_elem in *.
+    destruct (f_kind fd) as [sk|t|t]; destruct v as [s|fs' u'|k0 v0]; try discriminate.
+    - apply andb_true_iff in Hty. destruct Hty as [Hok _]. rewrite <- app_assoc in *.
+      apply (msg_dm_unknown_field (f_num fd) (sk_wt sk) (msg_enc_scalar sk s) tail accf U g (sk_enc sk s));
+        try assumption; [destruct sk; cbn; lia|destruct sk; cbn; lia|apply Hrej|].
+      apply msg_parse_scalar; assumption.
+    - apply andb_true_iff in Hsz. destruct Hsz as [Hsok Hslt].
+      pose proof (msg_body_len S t _ Hsok Hslt) as Hlen. rewrite <- app_assoc in *.
+      apply (msg_dm_unknown_field (f_num fd) 2 (enc_bytes (eb t (VMsg fs' u'))) tail accf U g (WLen (eb t (VMsg fs' u'))));
+        try assumption; try lia; [apply Hrej|].
+      rewrite msg_parse_val_len, (msgw_dec_bytes_enc _ _ Hlen). reflexivity.
+    - apply andb_true_iff in Hty. destruct Hty as [_ Hscan]. cbn [negb orb] in Hscan.
+      unfold msg_group_scans in Hscan.
+      destruct (parse_val default_dep (f_num fd) 3 (eb t (VMsg fs' u') ++ enc_tag (f_num fd) 4)) as [[w [|? ?]]|e] eqn:Hpv;
+        try discriminate.
+      destruct (msg_parse_val_ext _ _ _ _ _ _ tail Hpv) as (w' & Hpv'). cbn [app] in Hpv'.
+      replace ((enc_tag (f_num fd) 3 ++ eb t (VMsg fs' u') ++ enc_tag (f_num fd) 4) ++ tail)
+        with (enc_tag (f_num fd) 3 ++ (eb t (VMsg fs' u') ++ enc_tag (f_num fd) 4) ++ tail) in *
+        by (rewrite <- !app_assoc; reflexivity).
+      destruct (msg_dm_unknown_field (f_num fd) 3 (eb t (VMsg fs' u') ++ enc_tag (f_num fd) 4) tail accf U g w')
+        as (g2 & Hg2 & E); try assumption; try lia; [apply Hrej|].
+      exists g2. split; [exact Hg2|]. etransitivity; [exact E|]. try rewrite <- !app_assoc; reflexivity.
+  Qed.
+
+  Lemma msg_dm_deleted_elems tv fd : forall vs accf U tail g,
+    1 <= f_num fd -> f_num fd <= msg_max_num -> msg_find_field md' (f_num fd) = None ->
+    forallb (msg_typed_elem true eb tv fd) vs = true ->
+    forallb (msg_szok_elem (msg_size_body S) (msg_sizes_ok S) (f_kind fd)) vs = true ->
+    (length (flat_map (fun e => msg_enc_elem eb (f_num fd) (f_kind fd) e) vs ++ tail) < length g)%nat ->
+    exists g2, (length tail < length g2)%nat /\
+      dm (Datatypes.S d) tid grp g (flat_map (fun e => msg_enc_elem eb (f_num fd) (f_kind fd) e) vs ++ tail) (accf, U) =
+      dm (Datatypes.S d) tid grp g2 tail (accf, U ++ flat_map (fun e => msg_enc_elem eb (f_num fd) (f_kind fd) e) vs).
+  Proof.
+    induction vs as [|v vs IH]; intros accf U tail g Hlo Hhi Hnone Hty Hsz Hg.
+    - exists g. cbn [flat_map app] in *. rewrite app_nil_r. split; [exact Hg|reflexivity].
+    - cbn [forallb] in Hty, Hsz. apply andb_true_iff in Hty. destruct Hty as [Htv Hty].
+      apply andb_true_iff in Hsz. destruct Hsz as [Hsv Hsz].
+      cbn [flat_map] in *. rewrite <- !app_assoc in *.
+      destruct (msg_dm_deleted_elem tv fd v accf U _ g Hlo Hhi Hnone Htv Hsv Hg) as (g1 & Hg1 & E1).
+      destruct (IH accf (U ++ msg_enc_elem eb (f_num fd) (f_kind fd) v) tail g1 Hlo Hhi Hnone Hty Hsz Hg1) as (g2 & Hg2 & E2).
+      exists g2. split; [exact Hg2|]. etransitivity; [exact E1|]. etransitivity; [exact E2|]. rewrite <- !app_assoc. reflexivity.
+  Qed.
+
+  Lemma msg_dm_deleted_len num payload accf U tail g :
+    1 <= num -> num <= msg_max_num -> msg_find_field md' num = None ->
+    N.of_nat (length payload) < 2^64 ->
+    (length (enc_tag num 2 ++ enc_bytes payload ++ tail) < length g)%nat ->
+    exists g2, (length tail < length g2)%nat /\
+      dm (Datatypes.S d) tid grp g (enc_tag num 2 ++ enc_bytes payload ++ tail) (accf, U) =
+      dm (Datatypes.S d) tid grp g2 tail (accf, U ++ enc_tag num 2 ++ enc_bytes payload).
+  Proof.
+    intros Hlo Hhi Hnone Hlen Hg.
+    apply (msg_dm_unknown_field num 2 (enc_bytes payload) tail accf U g (WLen payload)); try assumption; try lia.
+    - unfold msg_rejects. rewrite Hnone. reflexivity.
+    - rewrite msg_parse_val_len, (msgw_dec_bytes_enc _ _ Hlen). reflexivity.
+  Qed.
+
+  Lemma msg_dm_deleted_entries num kk vk : forall es accf U tail g,
+    1 <= num -> num <= msg_max_num -> msg_find_field md' num = None ->
+    Forall (fun e => msg_szok_entry (msg_size_body S) (msg_sizes_ok S) kk vk e = true /\
+                     match e with VEntry _ _ => True | _ => False end) es ->
+    (length (flat_map (fun e => msg_enc_entry eb num kk vk e) es ++ tail) < length g)%nat ->
+    exists g2, (length tail < length g2)%nat /\
+      dm (Datatypes.S d) tid grp g (flat_map (fun e => msg_enc_entry eb num kk vk e) es ++ tail) (accf, U) =
+      dm (Datatypes.S d) tid grp g2 tail (accf, U ++ flat_map (fun e => msg_enc_entry eb num kk vk e) es).
+  Proof.
+    induction es as [|e es IH]; intros accf U tail g Hlo Hhi Hnone Hall Hg.
+    - exists g. cbn [flat_map app] in *. rewrite app_nil_r. split; [exact Hg|reflexivity].
+    - inversion Hall as [|? ? [Hsz Hshape] Hes]; subst.
+      destruct e as [|?|key v]; try contradiction.
+      cbn [flat_map msg_enc_entry] in *. rewrite <- !app_assoc in *.
+      cbn [msg_szok_entry] in Hsz.
+      apply andb_true_iff in Hsz. destruct Hsz as [Hsz Hblen].
+      apply andb_true_iff in Hsz. destruct Hsz as [Hkw Hvsz].
+      assert (Hbody : N.of_nat (length (msg_enc_key kk key ++ msg_enc_elem eb 2 vk v)) < 2^64).
+      { rewrite app_length, Nnat.Nat2N.inj_add.
+        rewrite <- (msg_size_key_eq kk key Hkw).
+        rewrite <- (msg_size_elem_eq (msg_size_body S) eb (msg_sizes_ok S) 2 vk v);
+          [rewrite <- msg_two64_eq; lia|cbn; lia|apply (proj1 (msg_size_eq_deep S v))|exact Hvsz]. }
+      destruct (msg_dm_deleted_len num (msg_enc_key kk key ++ msg_enc_elem eb 2 vk v) accf U
+                  (flat_map (fun e => msg_enc_entry eb num kk vk e) es ++ tail) g
+                  Hlo Hhi Hnone Hbody Hg) as (g1 & Hg1 & E1).
+      destruct (IH accf (U ++ enc_tag num 2 ++ enc_bytes (msg_enc_key kk key ++ msg_enc_elem eb 2 vk v)) tail g1
+                  Hlo Hhi Hnone Hes Hg1) as (g2 & Hg2 & E2).
+      exists g2. split; [exact Hg2|]. etransitivity; [exact E1|]. etransitivity; [exact E2|]. rewrite <- !app_assoc. reflexivity.
+  Qed.
+
+  (* a field of the full schema that md' does not have: all its occurrences are kept verbatim *)
+  Lemma msg_dm_deleted_field tv tv2 h2 fd vs accf U tail g :
+    msg_find_field md' (f_num fd) = None ->
+    msg_typed_field true eb tv tv2 h2 fd vs = true ->
+    msg_szok_field (msg_size_body S) (msg_sizes_ok S) fd vs = true ->
+    (length (msg_enc_field eb fd vs ++ tail) < length g)%nat ->
+    exists g2, (length tail < length g2)%nat /\
+      dm (Datatypes.S d) tid grp g (msg_enc_field eb fd vs ++ tail) (accf, U) =
+      dm (Datatypes.S d) tid grp g2 tail (accf, U ++ msg_enc_field eb fd vs).
+  Proof.
+    intros Hnone Hty Hsz Hg.
+    unfold msg_typed_field in Hty. unfold msg_szok_field in Hsz. unfold msg_enc_field in *.
+    apply andb_true_iff in Hty. destruct Hty as [Hnum Hty].
+    apply andb_true_iff in Hnum. destruct Hnum as [Hlo Hhi].
+    apply andb_true_iff in Hsz. destruct Hsz as [_ Hsz].
+    assert (Hlo' : 1 <= f_num fd) by lia. assert (Hhi' : f_num fd <= msg_max_num) by lia.
+    destruct (f_card fd) as [| | | | |kk kutf8 vdef] eqn:Hc.
+    - destruct vs as [|v [|]]; try discriminate. apply (msg_dm_deleted_elems tv fd); try assumption.
+      cbn [forallb]. rewrite Hty. reflexivity.
+    - destruct vs as [|v [|]]; try discriminate. apply andb_true_iff in Hty. destruct Hty as [Hty _].
+      apply (msg_dm_deleted_elems tv fd); try assumption. cbn [forallb]. rewrite Hty. reflexivity.
+    - destruct vs as [|v [|]]; try discriminate. apply (msg_dm_deleted_elems tv fd); try assumption.
+      cbn [forallb]. rewrite Hty. reflexivity.
+    - apply (msg_dm_deleted_elems tv fd); try assumption. destruct vs; [discriminate|exact Hty].
+    - assert (Htyv : forallb (msg_typed_elem true eb tv fd) vs = true) by (destruct vs; [discriminate|exact Hty]).
+      destruct (f_kind fd) as [sk|t|t] eqn:Hk.
+      + destruct vs as [|v0 vs']; [discriminate|].
+        destruct (msg_packable sk) eqn:Hp.
+        * apply andb_true_iff in Hsz. destruct Hsz as [Hszv Hplen].
+          pose proof (msg_packed_eq (msg_size_body S) (msg_sizes_ok S) sk (v0 :: vs') Hszv) as Hpe.
+          assert (Hlen : N.of_nat (length (msg_enc_packed_payload sk (v0 :: vs'))) < 2^64)
+            by (rewrite <- Hpe, <- msg_two64_eq; lia).
+          rewrite <- !app_assoc in *.
+          destruct (msg_dm_deleted_len (f_num fd) (msg_enc_packed_payload sk (v0 :: vs')) accf U tail g Hlo' Hhi' Hnone Hlen Hg) as (g2 & Hg2 & E).
+          exists g2. split; [exact Hg2|]. etransitivity; [exact E|]. try rewrite <- !app_assoc; reflexivity.
+        * rewrite <- Hk in *. apply (msg_dm_deleted_elems tv fd); assumption.
+      + rewrite <- Hk in *. apply (msg_dm_deleted_elems tv fd); assumption.
+      + rewrite <- Hk in *. apply (msg_dm_deleted_elems tv fd); assumption.
+    - apply andb_true_iff in Hty. destruct Hty as [Hty _].
+      apply andb_true_iff in Hty. destruct Hty as [_ Hty].
+      assert (Htye : forallb (msg_typed_entry tv2 fd kk kutf8) vs = true) by (destruct vs; [discriminate|exact Hty]).
+      apply msg_dm_deleted_entries; try assumption.
+      rewrite forallb_forall in Htye, Hsz. apply Forall_forall. intros e He. split; [apply Hsz, He|].
+      specialize (Htye e He). unfold msg_typed_entry in Htye. destruct e; try discriminate. exact I.
+  Qed.
+End EvoDec.
+
+Lemma msg_flat_map_ext_in {A B} (f g : A -> list B) l : (forall x, In x l -> f x = g x) -> flat_map f l = flat_map g l.
+Proof.
+  induction l as [|a l IH]; intros H; [reflexivity|]. cbn [flat_map].
+  rewrite (H a (or_introl eq_refl)), IH; [reflexivity|]. intros x Hx. apply H. right. exact Hx.
+Qed.
+
+(* deleting fields only makes the message type reject more *)
+Lemma msg_rejects_filter (f : N -> bool) md h num typ :
+  msg_rejects md h num typ = true -> msg_rejects (filter (fun fd => f (f_num fd)) md) h num typ = true.
+Proof. unfold msg_rejects. rewrite msg_find_filter. destruct (f num); [exact (fun H => H)|reflexivity]. Qed.
+
+Lemma msg_unknown_ok_filter (f : N -> bool) md h : forall g u,
+  msg_unknown_ok true md h g u = true -> msg_unknown_ok true (filter (fun fd => f (f_num fd)) md) h g u = true.
+Proof.
+  induction g as [|x g IH]; intros u H; [discriminate|]. cbn [msg_unknown_ok] in *.
+  destruct u as [|b0 u0]; [reflexivity|].
+  destruct (dec_tag (b0 :: u0)) as [[[num typ] r]|e]; [|discriminate].
+  destruct (parse_val default_dep num typ r) as [[w r']|e]; [|discriminate].
+  repeat (apply andb_true_iff in H; destruct H as [H ?]).
+  repeat (apply andb_true_iff; split); try assumption.
+  - apply msg_rejects_filter; assumption.
+  - apply IH; assumption.
+Qed.
+
+Section EvoFlat.
+  Variable S : schema.
+  Variable keep : nat -> N -> bool.
+  Notation S' := (msg_restrict keep S).
+  Notation dm' := (msg_decode_msg true S').
+  Notation eb := (msg_enc_body S).
+  Notation eb' := (msg_enc_body S').
+  Variables (d : nat) (md : mdesc) (fs : fields).
+  Hypothesis Hmd : nth_error S O = Some md.
+  Notation md' := (filter (fun fd => keep O (f_num fd)) md).
+  Notation has2 := (match d with O => false | _ => true end).
+  Notation tv2 := (fun t x => match d with O => false | Datatypes.S d1 => msg_typed true S d1 t x end).
+  Notation kp := (fun p : N * list value => keep O (fst p)).
+  Notation chunk := (fun p => snd (msg_enc_chunk eb md p)).
+
+  Hypothesis Hchunks : forall p, In p fs -> msg_typed_chunk true eb (msg_typed true S d) tv2 has2 md p = true.
+  Hypothesis Hszc : forall p, In p fs -> msg_szok_chunk (msg_size_body S) (msg_sizes_ok S) md p = true.
+  Hypothesis Hone : msg_oneofs_ok md fs = true.
+  Hypothesis Hflat : msg_kept_scalar (keep O) md fs = true.
+
+  Lemma msg_restrict_md' : nth_error S' O = Some md'.
+  Proof. unfold msg_restrict. rewrite msg_restrict_from_nth, Hmd. reflexivity. Qed.
+
+  Lemma msg_evo_field_of p : In p fs ->
+    exists fd, msg_find_field md (fst p) = Some fd /\ f_num fd = fst p /\
+               (keep O (fst p) = true -> exists sk, f_kind fd = KS sk).
+  Proof.
+    intros Hp. pose proof (Hchunks p Hp) as Hty. unfold msg_typed_chunk in Hty.
+    destruct (msg_find_field md (fst p)) as [fd|] eqn:Hf; [|discriminate].
+    exists fd. split; [reflexivity|]. split; [exact (msg_find_field_num _ _ _ Hf)|].
+    intros Hk. unfold msg_kept_scalar in Hflat. rewrite forallb_forall in Hflat. specialize (Hflat p Hp).
+    rewrite Hk, Hf in Hflat. cbn [negb orb] in Hflat.
+    unfold msg_scalar_kind in Hflat. destruct (f_kind fd) as [sk| |]; try discriminate. exists sk. reflexivity.
+  Qed.
+
+  (* decoding the encoding (full schema) of the fields P with the reduced schema: kept fields are
+     decoded, the others are retained, in the order of the input *)
+  Lemma msg_evo_chunks grp : forall P accf U tail g,
+    (forall p, In p P -> In p fs) ->
+    NoDup (msg_keys P ++ msg_keys accf) ->
+    (forall k, In k (msg_keys accf) -> In k (msg_keys fs)) ->
+    (length (flat_map chunk P ++ tail) < length g)%nat ->
+    exists g2, (length tail < length g2)%nat /\
+      dm' (Datatypes.S d) O grp g (flat_map chunk P ++ tail) (accf, U) =
+      dm' (Datatypes.S d) O grp g2 tail
+          (msg_ins_all (filter kp P) accf, U ++ flat_map chunk (filter (fun p => negb (kp p)) P)).
+  Proof.
+    induction P as [|p P IH]; intros accf U tail g Hin Hnd Hsub Hg.
+    - exists g. cbn [flat_map app filter msg_ins_all fold_left] in *. rewrite app_nil_r. split; [exact Hg|reflexivity].
+    - assert (Hp : In p fs) by (apply Hin; left; reflexivity).
+      destruct (msg_evo_field_of p Hp) as (fd & Hf & Hnum & Hks).
+      pose proof (Hchunks p Hp) as Hty. pose proof (Hszc p Hp) as Hsz.
+      unfold msg_typed_chunk in Hty. unfold msg_szok_chunk in Hsz. rewrite Hf in Hty, Hsz.
+      assert (Hc : chunk p = msg_enc_field eb fd (snd p)) by (unfold msg_enc_chunk; rewrite Hf; reflexivity).
+      cbn [flat_map filter] in *. cbv beta in Hc. rewrite Hc in *. rewrite <- app_assoc in *.
+      cbn [msg_keys map app] in Hnd. fold (msg_keys P) in Hnd.
+      assert (HinP : forall q, In q P -> In q fs) by (intros q Hq; apply Hin; right; exact Hq).
+      destruct (keep O (fst p)) eqn:Hkeep; cbn [negb].
+      + (* kept *)
+        destruct (Hks eq_refl) as (sk & Hk).
+        assert (Hf' : msg_find_field md' (f_num fd) = Some fd).
+        { rewrite (msg_find_filter (keep O)), Hnum, Hkeep, Hf. reflexivity. }
+        assert (Hnot : ~ In (f_num fd) (msg_keys accf)).
+        { rewrite Hnum. inversion Hnd as [|? ? Hn _]; subst. intros Hk'. apply Hn, in_or_app. right. exact Hk'. }
+        assert (Hfree : msg_oneof_free md' fd (f_num fd :: msg_keys accf)).
+        { pose proof (msg_oneofs_ok_free md fs p fd Hone Hp Hf) as Hfr.
+          intros oi Hoi fd' Hin' Hoi' Hne Hk'. apply filter_In in Hin'. destruct Hin' as [Hin' _].
+          apply (Hfr oi Hoi fd' Hin' Hoi' Hne).
+          destruct Hk' as [Hk'|Hk']; [congruence|apply Hsub; exact Hk']. }
+        rewrite (msg_enc_field_scalar eb eb' fd (snd p) sk Hk) in *.
+        destruct (msg_field_step true S' d O md' grp msg_restrict_md' fd (snd p) accf U
+                    (flat_map chunk P ++ tail) g Hf') as (g1 & Hg1 & E1); try assumption.
+        * rewrite <- (msg_typed_field_scalar true eb (msg_typed true S d) tv2 eb' (msg_typed true S' d)
+                        (fun t x => match d with O => false | Datatypes.S d1 => msg_typed true S' d1 t x end)
+                        has2 fd (snd p) sk Hk). exact Hty.
+        * rewrite <- (msg_szok_field_scalar (msg_size_body S) (msg_sizes_ok S) (msg_size_body S') (msg_sizes_ok S') fd (snd p) sk Hk).
+          exact Hsz.
+        * apply Forall_forall. intros v _. apply msg_dec_stmt_all.
+        * destruct (IH (msg_fset accf (f_num fd) (snd p)) U tail g1 HinP) as (g2 & Hg2 & E2).
+          -- rewrite Hnum. apply msg_nodup_step. exact Hnd.
+          -- intros k Hk'. apply msg_keys_fset in Hk'. destruct Hk' as [->|Hk']; [|apply Hsub; exact Hk'].
+             rewrite Hnum. apply (in_map fst fs p). exact Hp.
+          -- exact Hg1.
+          -- exists g2. split; [exact Hg2|]. etransitivity; [exact E1|]. etransitivity; [exact E2|].
+             cbn [msg_ins_all fold_left]. rewrite Hnum. reflexivity.
+      + (* deleted *)
+        assert (Hnone : msg_find_field md' (f_num fd) = None).
+        { rewrite (msg_find_filter (keep O)), Hnum, Hkeep. reflexivity. }
+        destruct (msg_dm_deleted_field S' d O md' grp msg_restrict_md' S (msg_typed true S d) tv2 has2 fd (snd p)
+                    accf U (flat_map chunk P ++ tail) g Hnone Hty Hsz Hg) as (g1 & Hg1 & E1).
+        destruct (IH accf (U ++ msg_enc_field eb fd (snd p)) tail g1 HinP) as (g2 & Hg2 & E2).
+        * inversion Hnd; assumption.
+        * exact Hsub.
+        * exact Hg1.
+        * exists g2. split; [exact Hg2|]. etransitivity; [exact E1|]. etransitivity; [exact E2|].
+          cbn [flat_map]. rewrite Hc. rewrite <- !app_assoc. reflexivity.
+  Qed.
+End EvoFlat.
+
+Lemma msg_nodup_app_l {A} (a b : list A) : NoDup (a ++ b) -> NoDup a.
+Proof.
+  induction a as [|x a IH]; [constructor|]. cbn [app]. intros H. inversion H as [|? ? Hn Hd]; subst.
+  constructor; [intros Hx; apply Hn, in_or_app; left; exact Hx|exact (IH Hd)].
+Qed.
+
+Ltac msg_rew_dm E :=
+  match type of E with _ = ?R =>
+    match goal with |- match ?X with DOk _ => _ | DErr _ => _ end = _ => replace X with R by (symmetry; exact E) end end.
+
+(* schema evolution for messages whose populated fields are all of scalar kind: decode with the
+   reduced schema, re-encode with it, decode with the full schema *)
+Theorem msg_schema_evolution_kept_scalar slow S keep limit fs unk :
+  msg_valid slow S limit O (VMsg fs unk) = true ->
+  msg_valid true S limit O (VMsg fs unk) = true ->
+  msg_kept_scalar (keep O) (nth O S []) fs = true ->
+  msg_evolve slow S (msg_restrict keep S) limit (msg_encode S O (VMsg fs unk)) = DOk (VMsg fs unk).
+Proof.
+  intros Hv Hvt Hflat.
+  unfold msg_valid in Hv, Hvt. apply andb_true_iff in Hv. destruct Hv as [Hsz Hty].
+  apply andb_true_iff in Hvt. destruct Hvt as [_ Htyt].
+  destruct (msg_typed_unfold true S limit O fs unk Htyt) as (d & md & -> & Hmd & Hsorted & Hchunks & Hone & Hunk).
+  destruct (msg_typed_unfold slow S _ O fs unk Hty) as (d0 & md0 & Hd0 & Hmd0 & _ & Hchunks0 & _ & Hunk0).
+  inversion Hd0; subst d0. rewrite Hmd in Hmd0. inversion Hmd0; subst md0. clear Hd0 Hmd0.
+  pose proof (msg_sizes_ok_unfold S O fs unk Hsz) as Hszc.
+  rewrite (msg_nth_error_nth S O md Hmd) in Hszc, Hflat.
+  rewrite forallb_forall in Hchunks, Hchunks0, Hszc.
+  apply msg_keys_sorted_spec in Hsorted.
+  set (S' := msg_restrict keep S).
+  set (md' := filter (fun fd => keep O (f_num fd)) md).
+  pose proof (msg_restrict_md' S keep md Hmd) as Hmd'. fold S' md' in Hmd'.
+  destruct (msg_enc_body_perm S O fs unk) as (P & Hperm & Ebody).
+  rewrite (msg_nth_error_nth S O md Hmd) in Ebody.
+  assert (HinP : forall p, In p P -> In p fs) by (intros p Hp; eapply Permutation_in; [exact Hperm|exact Hp]).
+  assert (HndP : NoDup (msg_keys P)).
+  { eapply Permutation_NoDup; [apply Permutation_sym, (Permutation_map fst), Hperm|].
+    eapply msg_sorted_nodup. exact Hsorted. }
+  set (kp := fun p : N * list value => keep O (fst p)).
+  set (chunk := fun p => snd (msg_enc_chunk (msg_enc_body S) md p)).
+  set (KP := filter kp P). set (DP := filter (fun p => negb (kp p)) P).
+  (* 1. decode with the reduced schema *)
+  assert (Hdec1 : msg_decode true S' (Datatypes.S d) O (msg_encode S O (VMsg fs unk)) =
+                  DOk (VMsg (msg_ins_all KP []) (flat_map chunk DP ++ unk))).
+  { unfold msg_decode, msg_decode_into, msg_encode, msg_empty. cbn [msg_macc_of]. rewrite Ebody.
+    destruct (msg_evo_chunks S keep d md fs Hmd Hchunks Hszc Hone Hflat 0 P [] [] unk
+                (x00 :: flat_map chunk P ++ unk)) as (g1 & Hg1 & E1);
+      [exact HinP|cbn [msg_keys map]; rewrite app_nil_r; exact HndP|intros k []|exact (Nat.lt_succ_diag_r _)|].
+    fold S' in E1. msg_rew_dm E1.
+    cbn [app]. fold KP DP chunk.
+    destruct (msg_unknown_loop true S' d O md' 0 Hmd' (x00 :: unk) unk g1 (msg_ins_all KP []) (flat_map chunk DP) []
+                (msg_unknown_ok_filter (keep O) md _ _ _ Hunk)) as (g2 & Hg2 & E2); [rewrite app_nil_r; exact Hg1|].
+    rewrite app_nil_r in E2. msg_rew_dm E2.
+    rewrite (msg_dm_end0 true S' d O md' g2 _ Hmd') by lia. reflexivity. }
+  unfold msg_evolve. fold S'. rewrite Hdec1.
+  (* 2. the re-encoding: the kept fields in some order, then the deleted ones, then the unknown bytes *)
+  destruct (msg_enc_body_perm S' O (msg_ins_all KP []) (flat_map chunk DP ++ unk)) as (P2 & Hperm2 & Ebody2).
+  rewrite (msg_nth_error_nth S' O md' Hmd') in Ebody2.
+  assert (HndK : NoDup (msg_keys KP ++ msg_keys [])).
+  { cbn [msg_keys map]. rewrite app_nil_r.
+    pose proof (Permutation_map fst (msg_perm_filter_split kp P)) as Hpm. rewrite map_app in Hpm.
+    apply (Permutation_NoDup (Permutation_sym Hpm)) in HndP. exact (msg_nodup_app_l _ _ HndP). }
+  destruct (msg_ins_all_props KP [] 0 HndK I) as [HsK HpK].
+  { intros k Hk. apply (msg_sorted_keys_gt 0 fs Hsorted).
+    apply in_map_iff in Hk. destruct Hk as (p & <- & Hp). apply filter_In in Hp. destruct Hp as [Hp _].
+    apply (in_map fst). exact (HinP p Hp). }
+  rewrite app_nil_r in HpK.
+  assert (HinP2 : forall p, In p P2 -> In p P /\ kp p = true).
+  { intros p Hp. apply (Permutation_in _ Hperm2) in Hp. apply (Permutation_in _ HpK) in Hp.
+    apply filter_In in Hp. exact Hp. }
+  assert (Echunks : flat_map (fun p => snd (msg_enc_chunk (msg_enc_body S') md' p)) P2 = flat_map chunk P2).
+  { apply msg_flat_map_ext_in. intros p Hp. destruct (HinP2 p Hp) as [HpP Hkp].
+    destruct (msg_evo_field_of S keep d md fs Hchunks Hflat p (HinP p HpP)) as (fd & Hf & Hnum & Hks).
+    unfold kp in Hkp. destruct (Hks Hkp) as (sk & Hk).
+    unfold chunk, msg_enc_chunk. unfold md'. rewrite (msg_find_filter (keep O)). rewrite Hkp, Hf.
+    cbn [snd]. symmetry. apply (msg_enc_field_scalar _ _ fd (snd p) sk Hk). }
+  unfold msg_encode. rewrite Ebody2, Echunks.
+  (* 3. decode with the full schema: a permutation of the fields of the message *)
+  set (P3 := P2 ++ DP).
+  assert (Hperm3 : Permutation P3 fs).
+  { unfold P3. rewrite Hperm2, HpK. unfold KP, DP. rewrite (msg_perm_filter_split kp P). exact Hperm. }
+  assert (E3 : flat_map chunk P2 ++ flat_map chunk DP ++ unk = flat_map chunk P3 ++ unk).
+  { unfold P3. rewrite flat_map_app, <- app_assoc. reflexivity. }
+  rewrite E3.
+  assert (HinP3 : forall p, In p P3 -> In p fs) by (intros p Hp; eapply Permutation_in; [exact Hperm3|exact Hp]).
+  assert (Hgood : Forall (msg_chunk_good slow S d md) P3).
+  { apply Forall_forall. intros p Hp. specialize (HinP3 p Hp). repeat split.
+    - apply Hchunks0, HinP3.
+    - apply Hszc, HinP3.
+    - apply Forall_forall. intros v _. apply msg_dec_stmt_all. }
+  assert (Hnd3 : NoDup (msg_keys P3 ++ msg_keys [])).
+  { cbn [msg_keys map]. rewrite app_nil_r. eapply Permutation_NoDup.
+    - apply Permutation_sym. apply (Permutation_map fst). exact Hperm3.
+    - eapply msg_sorted_nodup. exact Hsorted. }
+  unfold msg_decode, msg_decode_into, msg_empty. cbn [msg_macc_of].
+  destruct (msg_chunks_step slow S d O md 0 Hmd fs Hone P3 [] [] unk (x00 :: flat_map chunk P3 ++ unk) Hgood HinP3 Hnd3)
+    as (g3 & Hg3 & E4); [intros k []|exact (Nat.lt_succ_diag_r _)|].
+  fold chunk in E4.
+  msg_rew_dm E4.
+  assert (Hins : msg_ins_all P3 [] = fs).
+  { destruct (msg_ins_all_props P3 [] 0 Hnd3 I) as [Hs Hp].
+    - intros k Hk. apply (msg_sorted_keys_gt 0 fs Hsorted).
+      eapply Permutation_in; [apply (Permutation_map fst); exact Hperm3|exact Hk].
+    - rewrite app_nil_r in Hp.
+      eapply msg_sorted_perm_eq; [exact Hs|exact Hsorted|]. rewrite Hp. exact Hperm3. }
+  rewrite Hins.
+  destruct (msg_unknown_loop slow S d O md 0 Hmd (x00 :: unk) unk g3 fs [] [] Hunk0) as (g4 & Hg4 & E5);
+    [rewrite app_nil_r; exact Hg3|].
+  rewrite app_nil_r in E5. cbn [app] in E5. msg_rew_dm E5.
+  rewrite (msg_dm_end0 slow S d O md g4 _ Hmd) by lia. reflexivity.
+Qed.
+
+(* non-vacuity: the C03 example; its message-typed fields (a map with message values, a nested
+   recursive message, a group list) and one scalar field are deleted *)
+Definition ex_keep_scalar (tid : nat) (n : N) : bool := negb (existsb (N.eqb n) [3; 5; 6; 7]).
+Example ex_kept_scalar_ok :
+  msg_valid false ex_schema 3 O ex_msg = true /\ msg_valid true ex_schema 3 O ex_msg = true /\
+  (match ex_msg with VMsg fs _ => msg_kept_scalar (ex_keep_scalar O) (nth O ex_schema []) fs | _ => false end) = true.
+Proof. vm_compute. repeat split; reflexivity. Qed.
+
+(* ================= schema evolution: fields of the root type deleted, all kinds ================= *)
+(* two schema tables that agree on every type except the root (index 0) *)
+Definition msg_agree_ne0 (S S' : schema) : Prop := forall t, t <> O -> nth_error S' t = nth_error S t.
+
+Lemma msg_agree_nth S S' t : msg_agree_ne0 S S' -> t <> O -> nth t S' [] = nth t S [].
+Proof.
+  intros H Ht. specialize (H t Ht).
+  destruct (nth_error S t) as [md|] eqn:E.
+  - rewrite (msg_nth_error_nth S t md E), (msg_nth_error_nth S' t md H). reflexivity.
+  - rewrite (nth_overflow S []) by (apply nth_error_None; exact E).
+    rewrite (nth_overflow S' []) by (apply nth_error_None; exact H). reflexivity.
+Qed.
+
+Lemma msg_map_ext_in' {A B} (f g : A -> B) l : (forall x, In x l -> f x = g x) -> map f l = map g l.
+Proof. intros H. apply map_ext_in. exact H. Qed.
+
+Definition msg_uv (x : value) : value := match x with VEntry _ x' => x' | _ => x end.
+
+(* ---------- a field only looks at the functions of the sub-values it holds ---------- *)
+Lemma msg_enc_elem_ext eb eb' num k v :
+  (forall t fs u, (k = KMsg t \/ k = KGrp t) -> v = VMsg fs u -> eb' t v = eb t v) ->
+  msg_enc_elem eb' num k v = msg_enc_elem eb num k v.
+Proof.
+  intros H. destruct k as [sk|t|t]; destruct v; cbn [msg_enc_elem]; try reflexivity.
+  - rewrite (H t _ _ (or_introl eq_refl) eq_refl). reflexivity.
+  - rewrite (H t _ _ (or_intror eq_refl) eq_refl). reflexivity.
+Qed.
+Lemma msg_enc_field_ext eb eb' fd vs :
+  (forall t x, (f_kind fd = KMsg t \/ f_kind fd = KGrp t) -> In x vs -> eb' t (msg_uv x) = eb t (msg_uv x)) ->
+  msg_enc_field eb' fd vs = msg_enc_field eb fd vs.
+Proof.
+  intros H. unfold msg_enc_field.
+  assert (Hel : flat_map (fun e => msg_enc_elem eb' (f_num fd) (f_kind fd) e) vs =
+                flat_map (fun e => msg_enc_elem eb (f_num fd) (f_kind fd) e) vs).
+  { apply msg_flat_map_ext_in. intros x Hx. apply msg_enc_elem_ext. intros t fs u Hk ->.
+    exact (H t (VMsg fs u) Hk Hx). }
+  destruct (f_card fd) as [| | | | |kk ku vd]; try exact Hel.
+  - destruct (f_kind fd) as [sk|t|t] eqn:Hk; [|exact Hel|exact Hel].
+    destruct vs; [reflexivity|]. destruct (msg_packable sk); [reflexivity|exact Hel].
+  - apply msg_flat_map_ext_in. intros x Hx. destruct x as [| |key v]; cbn [msg_enc_entry]; try reflexivity.
+    f_equal. f_equal. f_equal. apply msg_enc_elem_ext. intros t fs u Hk _. exact (H t (VEntry key v) Hk Hx).
+Qed.
+
+Lemma msg_forallb_ext_in {A} (f g : A -> bool) l : (forall x, In x l -> f x = g x) -> forallb f l = forallb g l.
+Proof.
+  induction l as [|a l IH]; intros H; [reflexivity|]. cbn [forallb].
+  rewrite (H a (or_introl eq_refl)), IH; [reflexivity|]. intros x Hx. apply H. right. exact Hx.
+Qed.
+
+Lemma msg_size_elem_ext sb sb' num k v :
+  (forall t fs u, (k = KMsg t \/ k = KGrp t) -> v = VMsg fs u -> sb' t v = sb t v) ->
+  msg_size_elem sb' num k v = msg_size_elem sb num k v.
+Proof.
+  intros H. destruct k as [sk|t|t]; destruct v; cbn [msg_size_elem]; try reflexivity.
+  - rewrite (H t _ _ (or_introl eq_refl) eq_refl). reflexivity.
+  - rewrite (H t _ _ (or_intror eq_refl) eq_refl). reflexivity.
+Qed.
+Lemma msg_size_field_ext sb sb' fd vs :
+  (forall t x, (f_kind fd = KMsg t \/ f_kind fd = KGrp t) -> In x vs -> sb' t (msg_uv x) = sb t (msg_uv x)) ->
+  msg_size_field sb' fd vs = msg_size_field sb fd vs.
+Proof.
+  intros H. unfold msg_size_field.
+  assert (Hel : map (msg_size_elem sb' (f_num fd) (f_kind fd)) vs = map (msg_size_elem sb (f_num fd) (f_kind fd)) vs).
+  { apply map_ext_in. intros x Hx. apply msg_size_elem_ext. intros t fs u Hk ->. exact (H t (VMsg fs u) Hk Hx). }
+  destruct (f_card fd) as [| | | | |kk ku vd]; try (f_equal; exact Hel).
+  - destruct (f_kind fd) as [sk|t|t] eqn:Hk; rewrite ?Hk in Hel; try (f_equal; exact Hel).
+    destruct vs; [reflexivity|]. destruct (msg_packable sk); [reflexivity|f_equal; exact Hel].
+  - f_equal. apply map_ext_in. intros x Hx. destruct x as [| |key v]; cbn [msg_size_entry]; try reflexivity.
+    f_equal. f_equal. f_equal. apply msg_size_elem_ext. intros t fs u Hk _. exact (H t (VEntry key v) Hk Hx).
+Qed.
+
+Lemma msg_szok_elem_ext sb ok sb' ok' k v :
+  (forall t fs u, (k = KMsg t \/ k = KGrp t) -> v = VMsg fs u -> sb' t v = sb t v /\ ok' t v = ok t v) ->
+  msg_szok_elem sb' ok' k v = msg_szok_elem sb ok k v.
+Proof.
+  intros H. destruct k as [sk|t|t]; destruct v; cbn [msg_szok_elem]; try reflexivity.
+  - destruct (H t _ _ (or_introl eq_refl) eq_refl) as [-> ->]. reflexivity.
+  - destruct (H t _ _ (or_intror eq_refl) eq_refl) as [_ ->]. reflexivity.
+Qed.
+Lemma msg_szok_field_ext sb ok sb' ok' fd vs :
+  (forall t x, (f_kind fd = KMsg t \/ f_kind fd = KGrp t) -> In x vs ->
+               sb' t (msg_uv x) = sb t (msg_uv x) /\ ok' t (msg_uv x) = ok t (msg_uv x)) ->
+  msg_szok_field sb' ok' fd vs = msg_szok_field sb ok fd vs.
+Proof.
+  intros H. unfold msg_szok_field. f_equal.
+  assert (Hel : forallb (msg_szok_elem sb' ok' (f_kind fd)) vs = forallb (msg_szok_elem sb ok (f_kind fd)) vs).
+  { apply msg_forallb_ext_in. intros x Hx. apply msg_szok_elem_ext. intros t fs u Hk ->. exact (H t (VMsg fs u) Hk Hx). }
+  destruct (f_card fd) as [| | | | |kk ku vd]; try exact Hel.
+  - destruct (f_kind fd) as [sk|t|t] eqn:Hk; rewrite ?Hk in Hel; try exact Hel.
+    destruct vs; [reflexivity|]. destruct (msg_packable sk); [rewrite Hel; reflexivity|exact Hel].
+  - apply msg_forallb_ext_in. intros x Hx. destruct x as [| |key v]; cbn [msg_szok_entry]; try reflexivity.
+    assert (E1 : msg_szok_elem sb' ok' (f_kind fd) v = msg_szok_elem sb ok (f_kind fd) v).
+    { apply msg_szok_elem_ext. intros t fs u Hk _. exact (H t (VEntry key v) Hk Hx). }
+    assert (E2 : msg_size_elem sb' 2 (f_kind fd) v = msg_size_elem sb 2 (f_kind fd) v).
+    { apply msg_size_elem_ext. intros t fs u Hk _. exact (proj1 (H t (VEntry key v) Hk Hx)). }
+    rewrite E1, E2. reflexivity.
+Qed.
+
+Lemma msg_typed_elem_ext slow eb tv eb' tv' fd v :
+  (forall t fs u, (f_kind fd = KMsg t \/ f_kind fd = KGrp t) -> v = VMsg fs u -> tv' t v = tv t v /\ eb' t v = eb t v) ->
+  msg_typed_elem slow eb' tv' fd v = msg_typed_elem slow eb tv fd v.
+Proof.
+  intros H. unfold msg_typed_elem. destruct (f_kind fd) as [sk|t|t] eqn:Hk; destruct v; try reflexivity.
+  - destruct (H t _ _ (or_introl eq_refl) eq_refl) as [-> _]. reflexivity.
+  - destruct (H t _ _ (or_intror eq_refl) eq_refl) as [-> ->]. reflexivity.
+Qed.
+Lemma msg_typed_field_ext slow eb tv tv2 eb' tv' tv2' has2 fd vs :
+  (forall t x, (f_kind fd = KMsg t \/ f_kind fd = KGrp t) -> In x vs ->
+               tv' t (msg_uv x) = tv t (msg_uv x) /\ tv2' t (msg_uv x) = tv2 t (msg_uv x) /\
+               eb' t (msg_uv x) = eb t (msg_uv x)) ->
+  msg_typed_field slow eb' tv' tv2' has2 fd vs = msg_typed_field slow eb tv tv2 has2 fd vs.
+Proof.
+  intros H. unfold msg_typed_field. f_equal.
+  assert (Hone : forall v, In v vs -> msg_typed_elem slow eb' tv' fd v = msg_typed_elem slow eb tv fd v).
+  { intros v Hv. apply msg_typed_elem_ext. intros t fs u Hk ->.
+    destruct (H t (VMsg fs u) Hk Hv) as (H1 & _ & H3). split; assumption. }
+  assert (Hel : forallb (msg_typed_elem slow eb' tv' fd) vs = forallb (msg_typed_elem slow eb tv fd) vs)
+    by (apply msg_forallb_ext_in; exact Hone).
+  destruct (f_card fd) as [| | | | |kk ku vd].
+  - destruct vs as [|v [|]]; try reflexivity. apply Hone. left. reflexivity.
+  - destruct vs as [|v [|]]; try reflexivity. rewrite (Hone v (or_introl eq_refl)). reflexivity.
+  - destruct vs as [|v [|]]; try reflexivity. apply Hone. left. reflexivity.
+  - destruct vs; [reflexivity|exact Hel].
+  - destruct vs; [reflexivity|exact Hel].
+  - f_equal. f_equal. destruct vs as [|v0 vs0]; [reflexivity|].
+    apply msg_forallb_ext_in. intros x Hx. unfold msg_typed_entry. destruct x as [| |key v]; try reflexivity.
+    f_equal. destruct (f_kind fd) as [sk|t|t] eqn:Hk; destruct v as [s1|fs1 u1|k1 v1]; try reflexivity.
+    exact (proj1 (proj2 (H t (VEntry key (VMsg fs1 u1)) (or_introl eq_refl) Hx))).
+Qed.
+
+Section Agree.
+  Variables S S' : schema.
+  Hypothesis Hag : msg_agree_ne0 S S'.
+  Hypothesis Hun : msg_root_unref S.
+
+  Lemma msg_kind_ne0 t fd t' :
+    In fd (nth t S []) -> (f_kind fd = KMsg t' \/ f_kind fd = KGrp t') -> t' <> O.
+  Proof.
+    intros Hin Hk. destruct (nth_error S t) as [md|] eqn:E.
+    - rewrite (msg_nth_error_nth S t md E) in Hin. exact (Hun t md fd t' E Hin Hk).
+    - rewrite (nth_overflow S []) in Hin by (apply nth_error_None; exact E). destruct Hin.
+  Qed.
+
+  Definition msg_P_enc (v : value) : Prop := forall t, t <> O -> msg_enc_body S' t v = msg_enc_body S t v.
+
+  Lemma msg_uv_P (P : value -> Prop) x :
+    (P x /\ match x with VEntry _ v' => P v' | _ => True end) -> P (msg_uv x).
+  Proof. intros [H1 H2]. destruct x; cbn [msg_uv]; assumption. Qed.
+
+  Lemma msg_enc_body_agree : forall v, msg_P_enc v /\ match v with VEntry _ v' => msg_P_enc v' | _ => True end.
+  Proof.
+    induction v as [s|fs unk IH|k v IH] using msg_value_ind.
+    - split; [|exact I]. intros t _. reflexivity.
+    - split; [|exact I]. intros t Ht. cbn [msg_enc_body]. rewrite (msg_agree_nth S S' t Hag Ht).
+      f_equal. f_equal. f_equal. f_equal. apply map_ext_in. intros p Hp.
+      unfold msg_enc_chunk. destruct (msg_find_field (nth t S []) (fst p)) as [fd|] eqn:Hf; [|reflexivity].
+      f_equal. apply msg_enc_field_ext. intros t' x Hk Hx.
+      rewrite Forall_forall in IH. specialize (IH p Hp). rewrite Forall_forall in IH.
+      apply (msg_uv_P msg_P_enc x (IH x Hx)).
+      exact (msg_kind_ne0 t fd t' (msg_find_field_in _ _ _ Hf) Hk).
+    - split; [intros t _; reflexivity|]. exact (proj1 IH).
+  Qed.
+
+  Definition msg_P_sz (v : value) : Prop :=
+    forall t, t <> O -> msg_size_body S' t v = msg_size_body S t v /\ msg_sizes_ok S' t v = msg_sizes_ok S t v.
+
+  Lemma msg_sizes_agree : forall v, msg_P_sz v /\ match v with VEntry _ v' => msg_P_sz v' | _ => True end.
+  Proof.
+    induction v as [s|fs unk IH|k v IH] using msg_value_ind.
+    - split; [|exact I]. intros t _. split; reflexivity.
+    - split; [|exact I]. intros t Ht. cbn [msg_size_body msg_sizes_ok]. rewrite (msg_agree_nth S S' t Hag Ht).
+      rewrite Forall_forall in IH.
+      assert (Hsub : forall p fd t' x, In p fs -> msg_find_field (nth t S []) (fst p) = Some fd ->
+                 (f_kind fd = KMsg t' \/ f_kind fd = KGrp t') -> In x (snd p) ->
+                 msg_size_body S' t' (msg_uv x) = msg_size_body S t' (msg_uv x) /\
+                 msg_sizes_ok S' t' (msg_uv x) = msg_sizes_ok S t' (msg_uv x)).
+      { intros p fd t' x Hp Hf Hk Hx. specialize (IH p Hp). rewrite Forall_forall in IH.
+        apply (msg_uv_P msg_P_sz x (IH x Hx)). exact (msg_kind_ne0 t fd t' (msg_find_field_in _ _ _ Hf) Hk). }
+      split.
+      + f_equal. f_equal. apply map_ext_in. intros p Hp. unfold msg_size_chunk.
+        destruct (msg_find_field (nth t S []) (fst p)) as [fd|] eqn:Hf; [|reflexivity].
+        apply msg_size_field_ext. intros t' x Hk Hx. exact (proj1 (Hsub p fd t' x Hp Hf Hk Hx)).
+      + apply msg_forallb_ext_in. intros p Hp. unfold msg_szok_chunk.
+        destruct (msg_find_field (nth t S []) (fst p)) as [fd|] eqn:Hf; [|reflexivity].
+        apply msg_szok_field_ext. intros t' x Hk Hx. exact (Hsub p fd t' x Hp Hf Hk Hx).
+    - split; [intros t _; split; reflexivity|]. exact (proj1 IH).
+  Qed.
+
+  Definition msg_P_ty (slow : bool) (v : value) : Prop :=
+    forall dep t, t <> O -> msg_typed slow S' dep t v = msg_typed slow S dep t v.
+
+  Lemma msg_typed_agree slow : forall v, msg_P_ty slow v /\ match v with VEntry _ v' => msg_P_ty slow v' | _ => True end.
+  Proof.
+    induction v as [s|fs unk IH|k v IH] using msg_value_ind.
+    - split; [|exact I]. intros dep t _. reflexivity.
+    - split; [|exact I]. intros dep t Ht. cbn [msg_typed]. destruct dep as [|d]; [reflexivity|].
+      rewrite (Hag t Ht). destruct (nth_error S t) as [md|] eqn:Hmd; [|reflexivity].
+      f_equal. f_equal. f_equal.
+      rewrite Forall_forall in IH.
+      apply msg_forallb_ext_in. intros p Hp. unfold msg_typed_chunk.
+      destruct (msg_find_field md (fst p)) as [fd|] eqn:Hf; [|reflexivity].
+      apply msg_typed_field_ext. intros t' x Hk Hx.
+      specialize (IH p Hp). rewrite Forall_forall in IH.
+      assert (Ht' : t' <> O) by (exact (Hun t md fd t' Hmd (msg_find_field_in _ _ _ Hf) Hk)).
+      pose proof (msg_uv_P (msg_P_ty slow) x (IH x Hx)) as Hty.
+      pose proof (msg_uv_P msg_P_enc x (msg_enc_body_agree x)) as Hen.
+      split; [exact (Hty d t' Ht')|]. split; [|exact (Hen t' Ht')].
+      destruct d as [|d1]; [reflexivity|exact (Hty d1 t' Ht')].
+    - split; [intros dep t _; reflexivity|]. exact (proj1 IH).
+  Qed.
+End Agree.
+
+Section EvoTop.
+  Variable S : schema.
+  Variable keep : nat -> N -> bool.
+  Notation S' := (msg_restrict keep S).
+  Notation dm' := (msg_decode_msg true S').
+  Notation eb := (msg_enc_body S).
+  Notation eb' := (msg_enc_body S').
+  Variables (d : nat) (md : mdesc) (fs : fields).
+  Hypothesis Hmd : nth_error S O = Some md.
+  Notation md' := (filter (fun fd => keep O (f_num fd)) md).
+  Notation has2 := (match d with O => false | _ => true end).
+  Notation tv2 := (fun t x => match d with O => false | Datatypes.S d1 => msg_typed true S d1 t x end).
+  Notation kp := (fun p : N * list value => keep O (fst p)).
+  Notation chunk := (fun p => snd (msg_enc_chunk eb md p)).
+
+  Hypothesis Hchunks : forall p, In p fs -> msg_typed_chunk true eb (msg_typed true S d) tv2 has2 md p = true.
+  Hypothesis Hszc : forall p, In p fs -> msg_szok_chunk (msg_size_body S) (msg_sizes_ok S) md p = true.
+  Hypothesis Hone : msg_oneofs_ok md fs = true.
+  Hypothesis Hkeep : forall t n, t <> O -> keep t n = true.
+  Hypothesis Hun : msg_root_unref S.
+
+  Lemma msg_restrict_md_top : nth_error S' O = Some md'.
+  Proof. unfold msg_restrict. rewrite msg_restrict_from_nth, Hmd. reflexivity. Qed.
+
+  Lemma msg_restrict_agree : msg_agree_ne0 S S'.
+  Proof.
+    intros t Ht. unfold msg_restrict. rewrite msg_restrict_from_nth. destruct (nth_error S t) as [mdt|]; [|reflexivity].
+    f_equal. induction mdt as [|fd0 r IH]; [reflexivity|]. cbn [filter]. rewrite (Hkeep (0 + t)%nat (f_num fd0) Ht), IH. reflexivity.
+  Qed.
+
+  Lemma msg_evo_top_field_of p : In p fs ->
+    exists fd, msg_find_field md (fst p) = Some fd /\ f_num fd = fst p.
+  Proof.
+    intros Hp. pose proof (Hchunks p Hp) as Hty. unfold msg_typed_chunk in Hty.
+    destruct (msg_find_field md (fst p)) as [fd|] eqn:Hf; [|discriminate].
+    exists fd. split; [reflexivity|exact (msg_find_field_num _ _ _ Hf)].
+  Qed.
+
+  (* sub-values of a field of the root type: every function of the reduced table agrees *)
+  Lemma msg_evo_top_sub fd t x :
+    In fd md -> (f_kind fd = KMsg t \/ f_kind fd = KGrp t) ->
+    (forall dep, msg_typed true S' dep t (msg_uv x) = msg_typed true S dep t (msg_uv x)) /\
+    msg_enc_body S' t (msg_uv x) = msg_enc_body S t (msg_uv x) /\
+    msg_size_body S' t (msg_uv x) = msg_size_body S t (msg_uv x) /\
+    msg_sizes_ok S' t (msg_uv x) = msg_sizes_ok S t (msg_uv x).
+  Proof.
+    intros Hin Hk. assert (Ht : t <> O) by exact (Hun O md fd t Hmd Hin Hk).
+    pose proof msg_restrict_agree as Hag.
+    split; [intros dep; exact (msg_uv_P (msg_P_ty S S' true) x (msg_typed_agree S S' Hag Hun true x) dep t Ht)|].
+    split; [exact (msg_uv_P (msg_P_enc S S') x (msg_enc_body_agree S S' Hag Hun x) t Ht)|].
+    exact (msg_uv_P (msg_P_sz S S') x (msg_sizes_agree S S' Hag Hun x) t Ht).
+  Qed.
+
+  (* decoding the encoding (full schema) of the fields P with the reduced schema: kept fields are
+     decoded, the others are retained, in the order of the input *)
+  Lemma msg_evo_top_chunks grp : forall P accf U tail g,
+    (forall p, In p P -> In p fs) ->
+    NoDup (msg_keys P ++ msg_keys accf) ->
+    (forall k, In k (msg_keys accf) -> In k (msg_keys fs)) ->
+    (length (flat_map chunk P ++ tail) < length g)%nat ->
+    exists g2, (length tail < length g2)%nat /\
+      dm' (Datatypes.S d) O grp g (flat_map chunk P ++ tail) (accf, U) =
+      dm' (Datatypes.S d) O grp g2 tail
+          (msg_ins_all (filter kp P) accf, U ++ flat_map chunk (filter (fun p => negb (kp p)) P)).
+  Proof.
+    induction P as [|p P IH]; intros accf U tail g Hin Hnd Hsub Hg.
+    - exists g. cbn [flat_map app filter msg_ins_all fold_left] in *. rewrite app_nil_r. split; [exact Hg|reflexivity].
+    - assert (Hp : In p fs) by (apply Hin; left; reflexivity).
+      destruct (msg_evo_top_field_of p Hp) as (fd & Hf & Hnum).
+      pose proof (msg_find_field_in _ _ _ Hf) as Hinfd.
+      pose proof (Hchunks p Hp) as Hty. pose proof (Hszc p Hp) as Hsz.
+      unfold msg_typed_chunk in Hty. unfold msg_szok_chunk in Hsz. rewrite Hf in Hty, Hsz.
+      assert (Hc : chunk p = msg_enc_field eb fd (snd p)) by (unfold msg_enc_chunk; rewrite Hf; reflexivity).
+      cbn [flat_map filter] in *. cbv beta in Hc. rewrite Hc in *. rewrite <- app_assoc in *.
+      cbn [msg_keys map app] in Hnd. fold (msg_keys P) in Hnd.
+      assert (HinP : forall q, In q P -> In q fs) by (intros q Hq; apply Hin; right; exact Hq).
+      destruct (keep O (fst p)) eqn:Hkp; cbn [negb].
+      + (* kept *)
+        assert (Hf' : msg_find_field md' (f_num fd) = Some fd).
+        { rewrite (msg_find_filter (keep O)), Hnum, Hkp, Hf. reflexivity. }
+        assert (Hnot : ~ In (f_num fd) (msg_keys accf)).
+        { rewrite Hnum. inversion Hnd as [|? ? Hn _]; subst. intros Hk'. apply Hn, in_or_app. right. exact Hk'. }
+        assert (Hfree : msg_oneof_free md' fd (f_num fd :: msg_keys accf)).
+        { pose proof (msg_oneofs_ok_free md fs p fd Hone Hp Hf) as Hfr.
+          intros oi Hoi fd' Hin' Hoi' Hne Hk'. apply filter_In in Hin'. destruct Hin' as [Hin' _].
+          apply (Hfr oi Hoi fd' Hin' Hoi' Hne).
+          destruct Hk' as [Hk'|Hk']; [congruence|apply Hsub; exact Hk']. }
+        assert (Eenc : msg_enc_field eb' fd (snd p) = msg_enc_field eb fd (snd p)).
+        { apply msg_enc_field_ext. intros t x Hk Hx. exact (proj1 (proj2 (msg_evo_top_sub fd t x Hinfd Hk))). }
+        rewrite <- Eenc in *.
+        destruct (msg_field_step true S' d O md' grp msg_restrict_md_top fd (snd p) accf U
+                    (flat_map chunk P ++ tail) g Hf') as (g1 & Hg1 & E1); try assumption.
+        * rewrite (msg_typed_field_ext true eb (msg_typed true S d) tv2 eb' (msg_typed true S' d)
+                     (fun t x => match d with O => false | Datatypes.S d1 => msg_typed true S' d1 t x end) has2 fd (snd p)); [exact Hty|].
+          intros t x Hk Hx. destruct (msg_evo_top_sub fd t x Hinfd Hk) as (Ht1 & Ht2 & _).
+          split; [exact (Ht1 d)|]. split; [destruct d as [|d1]; [reflexivity|exact (Ht1 d1)]|exact Ht2].
+        * rewrite (msg_szok_field_ext (msg_size_body S) (msg_sizes_ok S) (msg_size_body S') (msg_sizes_ok S') fd (snd p)); [exact Hsz|].
+          intros t x Hk Hx. destruct (msg_evo_top_sub fd t x Hinfd Hk) as (_ & _ & Ht3 & Ht4). split; assumption.
+        * apply Forall_forall. intros v _. apply msg_dec_stmt_all.
+        * destruct (IH (msg_fset accf (f_num fd) (snd p)) U tail g1 HinP) as (g2 & Hg2 & E2).
+          -- rewrite Hnum. apply msg_nodup_step. exact Hnd.
+          -- intros k Hk'. apply msg_keys_fset in Hk'. destruct Hk' as [->|Hk']; [|apply Hsub; exact Hk'].
+             rewrite Hnum. apply (in_map fst fs p). exact Hp.
+          -- exact Hg1.
+          -- exists g2. split; [exact Hg2|]. etransitivity; [exact E1|]. etransitivity; [exact E2|].
+             cbn [msg_ins_all fold_left]. rewrite Hnum. reflexivity.
+      + (* deleted *)
+        assert (Hnone : msg_find_field md' (f_num fd) = None).
+        { rewrite (msg_find_filter (keep O)), Hnum, Hkp. reflexivity. }
+        destruct (msg_dm_deleted_field S' d O md' grp msg_restrict_md_top S (msg_typed true S d) tv2 has2 fd (snd p)
+                    accf U (flat_map chunk P ++ tail) g Hnone Hty Hsz Hg) as (g1 & Hg1 & E1).
+        destruct (IH accf (U ++ msg_enc_field eb fd (snd p)) tail g1 HinP) as (g2 & Hg2 & E2).
+        * inversion Hnd; assumption.
+        * exact Hsub.
+        * exact Hg1.
+        * exists g2. split; [exact Hg2|]. etransitivity; [exact E1|]. etransitivity; [exact E2|].
+          cbn [flat_map]. rewrite Hc. rewrite <- !app_assoc. reflexivity.
+  Qed.
+End EvoTop.
+
+(* schema evolution for messages whose populated fields are all of scalar kind: decode with the
+   reduced schema, re-encode with it, decode with the full schema *)
+Theorem msg_schema_evolution_top slow S keep limit fs unk :
+  (forall t n, t <> O -> keep t n = true) -> msg_root_unref S ->
+  msg_valid slow S limit O (VMsg fs unk) = true ->
+  msg_valid true S limit O (VMsg fs unk) = true ->
+  msg_evolve slow S (msg_restrict keep S) limit (msg_encode S O (VMsg fs unk)) = DOk (VMsg fs unk).
+Proof.
+  intros Hkeep Hun Hv Hvt.
+  unfold msg_valid in Hv, Hvt. apply andb_true_iff in Hv. destruct Hv as [Hsz Hty].
+  apply andb_true_iff in Hvt. destruct Hvt as [_ Htyt].
+  destruct (msg_typed_unfold true S limit O fs unk Htyt) as (d & md & -> & Hmd & Hsorted & Hchunks & Hone & Hunk).
+  destruct (msg_typed_unfold slow S _ O fs unk Hty) as (d0 & md0 & Hd0 & Hmd0 & _ & Hchunks0 & _ & Hunk0).
+  inversion Hd0; subst d0. rewrite Hmd in Hmd0. inversion Hmd0; subst md0. clear Hd0 Hmd0.
+  pose proof (msg_sizes_ok_unfold S O fs unk Hsz) as Hszc.
+  rewrite (msg_nth_error_nth S O md Hmd) in Hszc.
+  rewrite forallb_forall in Hchunks, Hchunks0, Hszc.
+  apply msg_keys_sorted_spec in Hsorted.
+  set (S' := msg_restrict keep S).
+  set (md' := filter (fun fd => keep O (f_num fd)) md).
+  pose proof (msg_restrict_md_top S keep md Hmd) as Hmd'. fold S' md' in Hmd'.
+  destruct (msg_enc_body_perm S O fs unk) as (P & Hperm & Ebody).
+  rewrite (msg_nth_error_nth S O md Hmd) in Ebody.
+  assert (HinP : forall p, In p P -> In p fs) by (intros p Hp; eapply Permutation_in; [exact Hperm|exact Hp]).
+  assert (HndP : NoDup (msg_keys P)).
+  { eapply Permutation_NoDup; [apply Permutation_sym, (Permutation_map fst), Hperm|].
+    eapply msg_sorted_nodup. exact Hsorted. }
+  set (kp := fun p : N * list value => keep O (fst p)).
+  set (chunk := fun p => snd (msg_enc_chunk (msg_enc_body S) md p)).
+  set (KP := filter kp P). set (DP := filter (fun p => negb (kp p)) P).
+  (* 1. decode with the reduced schema *)
+  assert (Hdec1 : msg_decode true S' (Datatypes.S d) O (msg_encode S O (VMsg fs unk)) =
+                  DOk (VMsg (msg_ins_all KP []) (flat_map chunk DP ++ unk))).
+  { unfold msg_decode, msg_decode_into, msg_encode, msg_empty. cbn [msg_macc_of]. rewrite Ebody.
+    destruct (msg_evo_top_chunks S keep d md fs Hmd Hchunks Hszc Hone Hkeep Hun 0 P [] [] unk
+                (x00 :: flat_map chunk P ++ unk)) as (g1 & Hg1 & E1);
+      [exact HinP|cbn [msg_keys map]; rewrite app_nil_r; exact HndP|intros k []|exact (Nat.lt_succ_diag_r _)|].
+    fold S' in E1. msg_rew_dm E1.
+    cbn [app]. fold KP DP chunk.
+    destruct (msg_unknown_loop true S' d O md' 0 Hmd' (x00 :: unk) unk g1 (msg_ins_all KP []) (flat_map chunk DP) []
+                (msg_unknown_ok_filter (keep O) md _ _ _ Hunk)) as (g2 & Hg2 & E2); [rewrite app_nil_r; exact Hg1|].
+    rewrite app_nil_r in E2. msg_rew_dm E2.
+    rewrite (msg_dm_end0 true S' d O md' g2 _ Hmd') by lia. reflexivity. }
+  unfold msg_evolve. fold S'. rewrite Hdec1.
+  (* 2. the re-encoding: the kept fields in some order, then the deleted ones, then the unknown bytes *)
+  destruct (msg_enc_body_perm S' O (msg_ins_all KP []) (flat_map chunk DP ++ unk)) as (P2 & Hperm2 & Ebody2).
+  rewrite (msg_nth_error_nth S' O md' Hmd') in Ebody2.
+  assert (HndK : NoDup (msg_keys KP ++ msg_keys [])).
+  { cbn [msg_keys map]. rewrite app_nil_r.
+    pose proof (Permutation_map fst (msg_perm_filter_split kp P)) as Hpm. rewrite map_app in Hpm.
+    apply (Permutation_NoDup (Permutation_sym Hpm)) in HndP. exact (msg_nodup_app_l _ _ HndP). }
+  destruct (msg_ins_all_props KP [] 0 HndK I) as [HsK HpK].
+  { intros k Hk. apply (msg_sorted_keys_gt 0 fs Hsorted).
+    apply in_map_iff in Hk. destruct Hk as (p & <- & Hp). apply filter_In in Hp. destruct Hp as [Hp _].
+    apply (in_map fst). exact (HinP p Hp). }
+  rewrite app_nil_r in HpK.
+  assert (HinP2 : forall p, In p P2 -> In p P /\ kp p = true).
+  { intros p Hp. apply (Permutation_in _ Hperm2) in Hp. apply (Permutation_in _ HpK) in Hp.
+    apply filter_In in Hp. exact Hp. }
+  assert (Echunks : flat_map (fun p => snd (msg_enc_chunk (msg_enc_body S') md' p)) P2 = flat_map chunk P2).
+  { apply msg_flat_map_ext_in. intros p Hp. destruct (HinP2 p Hp) as [HpP Hkp].
+    destruct (msg_evo_top_field_of S d md fs Hchunks p (HinP p HpP)) as (fd & Hf & Hnum).
+    unfold kp in Hkp.
+    unfold chunk, msg_enc_chunk. unfold md'. rewrite (msg_find_filter (keep O)). rewrite Hkp, Hf.
+    cbn [snd]. apply msg_enc_field_ext. intros t x Hk Hx.
+    exact (proj1 (proj2 (msg_evo_top_sub S keep md Hmd Hkeep Hun fd t x (msg_find_field_in _ _ _ Hf) Hk))). }
+  unfold msg_encode. rewrite Ebody2, Echunks.
+  (* 3. decode with the full schema: a permutation of the fields of the message *)
+  set (P3 := P2 ++ DP).
+  assert (Hperm3 : Permutation P3 fs).
+  { unfold P3. rewrite Hperm2, HpK. unfold KP, DP. rewrite (msg_perm_filter_split kp P). exact Hperm. }
+  assert (E3 : flat_map chunk P2 ++ flat_map chunk DP ++ unk = flat_map chunk P3 ++ unk).
+  { unfold P3. rewrite flat_map_app, <- app_assoc. reflexivity. }
+  rewrite E3.
+  assert (HinP3 : forall p, In p P3 -> In p fs) by (intros p Hp; eapply Permutation_in; [exact Hperm3|exact Hp]).
+  assert (Hgood : Forall (msg_chunk_good slow S d md) P3).
+  { apply Forall_forall. intros p Hp. specialize (HinP3 p Hp). repeat split.
+    - apply Hchunks0, HinP3.
+    - apply Hszc, HinP3.
+    - apply Forall_forall. intros v _. apply msg_dec_stmt_all. }
+  assert (Hnd3 : NoDup (msg_keys P3 ++ msg_keys [])).
+  { cbn [msg_keys map]. rewrite app_nil_r. eapply Permutation_NoDup.
+    - apply Permutation_sym. apply (Permutation_map fst). exact Hperm3.
+    - eapply msg_sorted_nodup. exact Hsorted. }
+  unfold msg_decode, msg_decode_into, msg_empty. cbn [msg_macc_of].
+  destruct (msg_chunks_step slow S d O md 0 Hmd fs Hone P3 [] [] unk (x00 :: flat_map chunk P3 ++ unk) Hgood HinP3 Hnd3)
+    as (g3 & Hg3 & E4); [intros k []|exact (Nat.lt_succ_diag_r _)|].
+  fold chunk in E4.
+  msg_rew_dm E4.
+  assert (Hins : msg_ins_all P3 [] = fs).
+  { destruct (msg_ins_all_props P3 [] 0 Hnd3 I) as [Hs Hp].
+    - intros k Hk. apply (msg_sorted_keys_gt 0 fs Hsorted).
+      eapply Permutation_in; [apply (Permutation_map fst); exact Hperm3|exact Hk].
+    - rewrite app_nil_r in Hp.
+      eapply msg_sorted_perm_eq; [exact Hs|exact Hsorted|]. rewrite Hp. exact Hperm3. }
+  rewrite Hins.
+  destruct (msg_unknown_loop slow S d O md 0 Hmd (x00 :: unk) unk g3 fs [] [] Hunk0) as (g4 & Hg4 & E5);
+    [rewrite app_nil_r; exact Hg3|].
+  rewrite app_nil_r in E5. cbn [app] in E5. msg_rew_dm E5.
+  rewrite (msg_dm_end0 slow S d O md g4 _ Hmd) by lia. reflexivity.
+Qed.
+
+(* non-vacuity: a root type with a singular, a repeated and a map field of a message type *)
+Definition ex_top : schema :=
+  [[mkF 1 (KMsg 1) COpt None false false false; mkF 2 (KS SkInt32) COpt None false false false;
+    mkF 3 (KMsg 1) CRep None false false false; mkF 4 (KMsg 1) (CMap SkInt32 false 0) None false false false];
+   [mkF 1 (KS SkInt32) COpt None false false false; mkF 2 (KS SkString) COpt None true false false]].
+Definition ex_top_sub (z : Z) : value := VMsg [(1, [VS (SZ z)]); (2, [VS (SBy [x68; x69])])] [x98; x06; x07].
+Definition ex_top_msg : value :=
+  VMsg [(1, [ex_top_sub 5]); (2, [VS (SZ (-1))]); (3, [ex_top_sub 6; msg_empty]); (4, [VEntry (SZ 7) (ex_top_sub 8)])] [x98; x06; x07].
+Lemma ex_top_unref : msg_root_unref ex_top.
+Proof.
+  intros t md fd t' Hmd Hin Hk. destruct t as [|[|t]]; cbn in Hmd; [| |destruct t; discriminate]; inversion Hmd; subst md.
+  - destruct Hin as [<-|[<-|[<-|[<-|[]]]]]; destruct Hk as [Hk|Hk]; inversion Hk; discriminate.
+  - destruct Hin as [<-|[<-|[]]]; destruct Hk as [Hk|Hk]; discriminate.
+Qed.
+Example ex_top_ok :
+  msg_valid false ex_top 4 O ex_top_msg = true /\ msg_valid true ex_top 4 O ex_top_msg = true.
+Proof. vm_compute. split; reflexivity. Qed.
